@@ -192,6 +192,9 @@ func (c *ProxyCase) classify() (labels []string, nontrivial bool) {
 		labels = append(labels, "writes>=2")
 		nontrivial = true
 	}
+	if carriesUpgrade(c.Req.Header) {
+		labels = append(labels, "req-carries-upgrade")
+	}
 	if len(c.Chain.Before) > 0 {
 		labels = append(labels, "plugin-wrapped-by-others")
 	}
@@ -200,6 +203,28 @@ func (c *ProxyCase) classify() (labels []string, nontrivial bool) {
 	}
 	labels = append(labels, c.Chain.Style)
 	return
+}
+
+// gzipBuffers: a gzip plugin wraps size_limit, the client offered gzip and the response type is one gzip
+// buffers (text/...): the region of the finding keyGzip413, should it ever be listed as open.
+func gzipBuffers(c *ProxyCase) bool {
+	wrapped, offered, text := false, false, false
+	for _, p := range c.Chain.Before {
+		if strings.HasPrefix(p, "gzip") {
+			wrapped = true
+		}
+	}
+	for _, kv := range c.Req.Header {
+		if strings.EqualFold(kv.K, "Accept-Encoding") && strings.Contains(kv.V, "gzip") {
+			offered = true
+		}
+	}
+	for _, kv := range c.Resp.Header {
+		if strings.EqualFold(kv.K, "Content-Type") && strings.HasPrefix(kv.V, "text/") {
+			text = true
+		}
+	}
+	return wrapped && offered && text
 }
 
 func abortSignature(r *lab.RawResponse, err error) bool {
@@ -254,8 +279,8 @@ func JudgeProxy(c *ProxyCase, with, without *ProxyLab, fresh bool, raceRetries *
 	}
 	if hasBody && n > L {
 		v.Labels = append(v.Labels, "chunked-too-large")
-		if err == nil && int64(len(got.Body)) > M {
-			v.Viol = fmt.Sprintf("S1: client received %d response body bytes, max_response_body is %d", len(got.Body), M)
+		if err == nil && deliveredLen(got) > M {
+			v.Viol = fmt.Sprintf("S1: client received %d response body bytes, max_response_body is %d", deliveredLen(got), M)
 		}
 		return v
 	}
@@ -279,8 +304,8 @@ func JudgeProxy(c *ProxyCase, with, without *ProxyLab, fresh bool, raceRetries *
 		return v
 	}
 	// S1 (an aborted connection without a readable response head delivered no body bytes)
-	if err == nil && int64(len(got.Body)) > M {
-		v.Viol = fmt.Sprintf("S1: client received %d response body bytes, max_response_body is %d", len(got.Body), M)
+	if err == nil && deliveredLen(got) > M {
+		v.Viol = fmt.Sprintf("S1: client received %d response body bytes, max_response_body is %d", deliveredLen(got), M)
 		return v
 	}
 	if over {
@@ -296,6 +321,8 @@ func JudgeProxy(c *ProxyCase, with, without *ProxyLab, fresh bool, raceRetries *
 			v.Labels = append(v.Labels, "413-required")
 			if err != nil && lab.Open(key413) {
 				v.Excluded = key413
+			} else if err != nil && gzipBuffers(c) && lab.Open(keyGzip413) {
+				v.Excluded = keyGzip413
 			} else if err != nil {
 				v.Viol = fmt.Sprintf("S2: the backend's first body write (%d bytes, Content-Length framing) alone exceeds max_response_body %d and nothing was sent before it, but the client got no response (%v), not 413", first, M, err)
 			} else if got.Status != 413 {
